@@ -16,9 +16,11 @@ ASSUMPTIONS = ["equivariance of absorbing layers, full tensors and detectors is 
 TRUSTED = ["correspondence harness"]
 LEVEL_TEXT = ("Theorem (every scene of the model incl. any list of CPML layers with a valid axis, any number of steps): forward commutes with the cyclic "
               "relabelling of the axes, cell by cell, for E, H and the psi accumulators (the model keeps the source's per-axis code paths: the a == 0/1/2 "
-              "branches of the CPML loop and the per-axis difference operators). 9-component tensors, source set-up and detector records: implementation "
-              "predicate on all three orientations.")
-LEVEL_NOTE = "Full tensors, source set-up (incident profiles) and detectors are outside the theorem; they are exercised by the orientation triples through run_fdtd."
+              "branches of the CPML loop and the per-axis difference operators). The fully anisotropic tiers of model/YeeFull.v (9-component inverse "
+              "permittivity / permeability, width-weighted co-location averages; lossless, and conductive with the per-cell 3x3 update matrices A = M1^-1 M2, "
+              "B = c M1^-1 T by the adjugate formula) have the same theorem for layer-free scenes (C08_forward_full_tensor_perm, C08_forward_lossy_tensor_perm: "
+              "the matrices of the relabelled tensors are the relabelled matrices). Source set-up and detector records: implementation predicate on all three orientations.")
+LEVEL_NOTE = "Source set-up (incident profiles) and detectors are outside the theorems; they are exercised by the orientation triples through run_fdtd (which also run full tensors under CPML layers, outside the full-tensor theorems)."
 TECHNIQUE = "Coq proof (relabelling commutes with ghost reads, CPML loop and updates) + differential runs in three orientations"
 AX = "xyz"
 
